@@ -37,7 +37,9 @@ non-participant holds the lock nobody acquires; (4) one process alone: acquires 
 clean == True, a stale one with clean == False in a single call, re-acquires after its own release,
 never acquires a live foreign one; (5) with no live foreign holder somebody acquires in every
 complete schedule, and no schedule ends with all remaining processes blocked; (6) `lock()` never
-raises for the three errnos the table can produce.  Guard: a process's hold ends when its unlock's
+raises for the three errnos the table can produce; (7) a `lock()` call that no other process's step
+interleaved with, started when the link was absent or named a pid that is not alive, returns True -
+also on a long-lived object that found the owner alive on earlier polls (`retry` next to `die`).  Guard: a process's hold ends when its unlock's
 `rmlink` executes (the return of `unlock()` is process-local), a dead process holds nothing.
 
 Known finding (DESIGN 6-26) `stale-break-removes-live-lock`: classified ONLY when, earlier in the
@@ -76,7 +78,7 @@ ASSUMPTIONS = [
 SHARDS = {"quick": 4, "thorough": 16}
 FLOORS = {"states": 2000, "schedules_completed": 200, "acquisitions": 1000, "holder_unlocks": 500, "stale_breaks": 100,
           "configs": 20, "exclusion_checks": 1000, "single_process_checks": 3,
-          "forks_while_holding": 100, "inherited_unlock_calls": 100, "pid_reuse_configurations": 6, "pid_reuse_births": 20}
+          "uncontended_lock_calls_free": 200, "uncontended_lock_calls_dead_owner": 100, "forks_while_holding": 100, "inherited_unlock_calls": 100, "pid_reuse_configurations": 6, "pid_reuse_births": 20}
 READY = True
 
 PIDS = (101, 102, 103, 104)
@@ -435,6 +437,26 @@ class World:
         self.trace.append({"step": len(self.trace), "proc": i, "pid": PIDS[i], "event": "lock-raised", "exception": repr(exc)})
         self.violations.append(("lock-raised", "lock() raised although the primitives only failed with EEXIST/ENOENT/ESRCH", {"proc": PIDS[i], "exception": repr(exc)}))
 
+    def uncontended(self, i, got):
+        """Oracle (7): a lock() call none of whose primitives was interleaved with any other process's
+        step, started when the link was absent or named a pid that is not alive, must return True
+        (a free lock is acquired, a lock left by a dead process is broken and acquired in that call)."""
+        k = len(self.trace) - 1
+        while k >= 0 and not (self.trace[k].get("proc") == i and self.trace[k].get("event") == "lock-called"):
+            k -= 1
+        if k < 0:
+            return
+        mine = [e for e in self.trace[k + 1:] if e.get("proc") == i and "op" in e]
+        if not mine or any(e.get("proc") != i for e in self.trace[mine[0]["step"]:]):
+            return
+        before = mine[0]["link_before"]
+        if before is not None and not (before.isdigit() and int(before) not in self.alive):
+            return
+        self.trace.append({"step": len(self.trace), "proc": i, "pid": PIDS[i], "event": "uncontended-lock-call", "link_at_start": before, "returned": got})
+        if not got:
+            self.violations.append(("uncontended-lock-call-failed", "a lock() call that no other process interleaved with, started on a free lock "
+                                    "or on the lock of a dead process, returned False", {"proc": PIDS[i], "link_at_start": before}))
+
     def event(self, i, name, **kw):
         if self.live:
             self.trace.append(dict({"step": len(self.trace), "proc": i, "pid": PIDS[i], "event": name}, **kw))
@@ -471,6 +493,7 @@ class World:
 
 # ---- programs (run inside the process threads) -------------------------------------------------------
 def _lock(w, i, l):
+    w.event(i, "lock-called")
     w.api[i] = "lock"
     try:
         got = l.lock()
@@ -478,6 +501,8 @@ def _lock(w, i, l):
         got = False
         w.lock_raised(i, e)
     w.api[i] = None
+    if w.live:
+        w.uncontended(i, got)
     return got
 
 
@@ -641,6 +666,8 @@ def report(ctx, w, mark):
             ctx.count("holder_unlocks")
         elif ev == "rogue-unlock-refused":
             ctx.count("rogue_unlocks_refused")
+        elif ev == "uncontended-lock-call":
+            ctx.count("uncontended_lock_calls_free" if e["link_at_start"] is None else "uncontended_lock_calls_dead_owner")
         elif e.get("op") == "rmlink" and e.get("api") == "lock" and e.get("result") is None:
             ctx.count("stale_breaks")
         elif e.get("op") == "die":
